@@ -235,6 +235,7 @@ func roundTrip(w *ndWriter, sid *int, doc *sbom.Document, fname string, indent i
 		return
 	}
 	ev["doc1"] = proj.Doc(d1)
+	ev["file"] = fileAPI(doc, trFormats[fname], indent, rf, out, d1)
 	out2, k, t := writeDoc(d1, trFormats[fname], indent)
 	ev["w2"] = outcome(k, t)
 	if k != "ok" {
@@ -245,6 +246,51 @@ func roundTrip(w *ndWriter, sid *int, doc *sbom.Document, fname string, indent i
 	if k == "ok" {
 		ev["doc2"] = proj.Doc(d2)
 	}
+}
+
+// fileAPI repeats the write and the read through the path-taking entry points (WriteFile, ParseFile) and reports
+// whether they agree with the stream entry points: "same" | "write-differs" | "read-differs" | "<outcome kind>".
+func fileAPI(doc *sbom.Document, f formats.Format, indent int, rf formats.Format, streamOut []byte, streamDoc *sbom.Document) string {
+	dir, err := os.MkdirTemp("", "vh-file-")
+	if err != nil {
+		return "skip"
+	}
+	defer os.RemoveAll(dir)
+	path := filepath.Join(dir, "sbom.json")
+	var werr error
+	k, _ := guarded(20*time.Second, func() {
+		w := writer.New(writer.WithFormat(f), writer.WithRenderOptions(&native.RenderOptions{Indent: indent}))
+		werr = w.WriteFile(doc, path)
+	})
+	if k != "ok" {
+		return "write-" + k
+	}
+	if werr != nil {
+		return "write-err"
+	}
+	data, _ := os.ReadFile(path)
+	if normalise(data) != normalise(streamOut) {
+		return "write-differs"
+	}
+	var d2 *sbom.Document
+	var rerr error
+	k, _ = guarded(20*time.Second, func() {
+		if rf == "" {
+			d2, rerr = reader.New().ParseFile(path)
+		} else {
+			d2, rerr = reader.New().ParseFileWithOptions(path, &reader.Options{Format: rf})
+		}
+	})
+	if k != "ok" {
+		return "read-" + k
+	}
+	if rerr != nil || d2 == nil {
+		return "read-err"
+	}
+	if canon(proj.NodeList(d2.NodeList)) != canon(proj.NodeList(streamDoc.NodeList)) {
+		return "read-differs"
+	}
+	return "same"
 }
 
 func fixturePaths() []string {
